@@ -279,12 +279,12 @@ def run(ctx: Any, prog: Program) -> None:
               func='BSP.save', text='game lump directory record')
     id_rev_w = any('game_lump.id[::-1]' in ast.unparse(n) for n in walk_no_nested(sv) if isinstance(n, ast.Call))
     id_rev_r = any(ast.unparse(n).replace(' ', '') == 'game_lump_id=game_lump_id[::-1]' for n in walk_no_nested(rd) if isinstance(n, ast.Assign))
-    ctx.check('C10.B4', id_rev_w and id_rev_r, bsp, sv, 'game lump ids are stored reversed: both save() and read() must reverse them', func='BSP.save', text='game lump id reversal')
+    ctx.shape('C10.B4', id_rev_w and id_rev_r, bsp, sv, 'game lump ids are stored reversed: both save() and read() must reverse them', func='BSP.save', text='game lump id reversal')
     h1w = any(isinstance(n, ast.Call) and dotted(n.func) == 'struct.pack' and n.args and dotted(n.args[0]) == 'HEADER_1' and len(n.args) == 3 for n in walk_no_nested(sv))
     h1r = any(isinstance(n, ast.Call) and dotted(n.func) == 'struct_read' and dotted(n.args[0]) == 'HEADER_1' for n in walk_no_nested(rd))
     h2w = any(isinstance(n, ast.Call) and dotted(n.func) == 'struct.pack' and n.args and dotted(n.args[0]) == 'HEADER_2' and ast.unparse(n.args[1]) == 'self.map_revision' for n in walk_no_nested(sv))
     h2r = any(isinstance(n, ast.Assign) and isinstance(n.value, ast.Call) and dotted(n.value.func) == 'struct_read' and dotted(n.value.args[0]) == 'HEADER_2' and 'self.map_revision' in ast.unparse(n.targets[0]) for n in walk_no_nested(rd))
-    ctx.check('C10.B4', h1w and h1r and h2w and h2r, bsp, sv, 'magic/version (HEADER_1) and map revision (HEADER_2) must be written and read with the same formats', func='BSP.save', text='HEADER_1/HEADER_2')
+    ctx.shape('C10.B4', h1w and h1r and h2w and h2r, bsp, sv, 'magic/version (HEADER_1) and map revision (HEADER_2) must be written and read with the same formats', func='BSP.save', text='HEADER_1/HEADER_2')
     # ---- B5 --------------------------------------------------------------------------------------------
     comp_calls = [n for n in walk_no_nested(sv) if isinstance(n, ast.Call) and dotted(n.func) == 'compress_lzma']
     if len(comp_calls) != 2:
@@ -304,36 +304,52 @@ def run(ctx: Any, prog: Program) -> None:
         ok = guard is not None and f'{obj}.is_compressed' in ast.unparse(guard.test)
         ctx.check('C10.B5', ok, bsp, c, f'compress_lzma({ast.unparse(c.args[0])}) must be applied exactly when {obj}.is_compressed is set', func='BSP.save', text=f'compress {obj} iff flagged')
         if obj == 'lump' and guard is not None:
-            ctx.check('C10.B5', 'PAKFILE' in ast.unparse(guard.test), bsp, guard, 'the pakfile lump must never be LZMA-compressed', func='BSP.save', text='PAKFILE never compressed')
+            tsrc = ast.unparse(guard.test)
+            if 'PAKFILE' in tsrc:
+                ctx.check('C10.B5', True, bsp, guard, 'the pakfile lump must never be LZMA-compressed', func='BSP.save', text='PAKFILE never compressed')
+            elif isinstance(guard.test, ast.Attribute) or (isinstance(guard.test, ast.BoolOp) and all(isinstance(v, ast.Attribute) for v in guard.test.values)):
+                ctx.check('C10.B5', False, bsp, guard, f'`{tsrc}` lets the pakfile lump be LZMA-compressed like any other: the engine reads the pakfile as a plain zip, and read() would hand zipfile compressed bytes',
+                          func='BSP.save', text='PAKFILE never compressed')
+            else:
+                ctx.shape('C10.B5', False, bsp, guard, 'exclusion of the pakfile lump not recognised', func='BSP.save', text='PAKFILE never compressed')
             fcc = [n for n in guard.body if isinstance(n, ast.Assign) and 'fourcc' in ast.unparse(n.targets[0])]
-            okf = len(fcc) == 1 and ast.unparse(fcc[0].value) == 'len(lump.data)'
             fz = [n for n in guard.orelse if isinstance(n, ast.Assign) and 'fourcc' in ast.unparse(n.targets[0])]
-            okz = len(fz) == 1 and isinstance(fz[0].value, ast.Constant) and fz[0].value.value == 0
-            ctx.check('C10.B5', okf and okz, bsp, guard, 'the fourCC slot must hold the uncompressed length for compressed lumps and 0 otherwise (read() takes `> 0` as the compressed flag)',
-                      func='BSP.save', text='fourCC = uncompressed length / 0')
+            if len(fcc) != 1 or len(fz) != 1:
+                ctx.shape('C10.B5', False, bsp, guard, 'fourCC assignments not found in both branches', func='BSP.save', text='fourCC = uncompressed length / 0')
+            elif isinstance(fcc[0].value, ast.Constant) or not (isinstance(fz[0].value, ast.Constant) and fz[0].value.value == 0):
+                ctx.check('C10.B5', False, bsp, fcc[0], f'the fourCC slot is set to `{ast.unparse(fcc[0].value)}` for compressed lumps and `{ast.unparse(fz[0].value)}` otherwise: it must hold the uncompressed length / 0 '
+                          '(read() takes `> 0` as the compressed flag and the engine uses the value as the size)', func='BSP.save', text='fourCC = uncompressed length / 0')
+            else:
+                ctx.shape('C10.B5', ast.unparse(fcc[0].value) == 'len(lump.data)', bsp, fcc[0], 'uncompressed length expression', func='BSP.save', text='fourCC = uncompressed length / 0')
     rflag = [n for n in walk_no_nested(rd) if isinstance(n, ast.If) and ast.unparse(n.test) == 'uncomp_size > 0']
     ok = len(rflag) == 1 and 'lump.is_compressed = True' in ast.unparse(rflag[0].body[0]) and 'decompress_lzma' in ast.unparse(rflag[0]) \
         and 'lump.is_compressed = False' in ast.unparse(rflag[0].orelse[0])
-    ctx.check('C10.B5', ok, bsp, rflag[0] if rflag else rd, 'read() must set is_compressed and decompress exactly when the fourCC slot is positive', func='BSP.read', text='read flag/decompress')
+    ctx.shape('C10.B5', ok, bsp, rflag[0] if rflag else rd, 'read() must set is_compressed and decompress exactly when the fourCC slot is positive', func='BSP.read', text='read flag/decompress')
     gl = [n for n in walk_no_nested(rd) if isinstance(n, ast.If) and ast.unparse(n.test) == 'gm_lump.is_compressed']
     ok = len(gl) == 1 and 'decompress_lzma' in ast.unparse(gl[0].body) if gl else False
     ok = bool(gl) and any('decompress_lzma' in ast.unparse(s) for s in gl[0].body) and not any('decompress_lzma' in ast.unparse(s) for s in gl[0].orelse)
-    ctx.check('C10.B5', ok, bsp, gl[0] if gl else rd, 'read() must decompress a game lump exactly when its compressed flag is set', func='BSP.read', text='game lump decompress')
+    ctx.shape('C10.B5', ok, bsp, gl[0] if gl else rd, 'read() must decompress a game lump exactly when its compressed flag is set', func='BSP.read', text='game lump decompress')
     dummy = [n for n in walk_no_nested(sv) if isinstance(n, ast.Assign) and ast.unparse(n.targets[0]) == 'dummy_segment']
     ok = len(dummy) == 1 and 'game_lumps[-1].is_compressed' in ast.unparse(dummy[0].value)
-    ctx.check('C10.B5', ok, bsp, dummy[0] if dummy else sv, 'a trailing dummy directory entry is needed when the last game lump is compressed (sizes are derived from the next offset)', func='BSP.save', text='dummy game lump entry')
+    ctx.shape('C10.B5', ok, bsp, dummy[0] if dummy else sv, 'a trailing dummy directory entry is needed when the last game lump is compressed (sizes are derived from the next offset)', func='BSP.save', text='dummy game lump entry')
     glen = [n for n in walk_no_nested(sv) if isinstance(n, ast.Call) and dotted(n.func) == 'defer.set_data' and n.args and dotted(n.args[0]) == 'game_lump.id']
     ok = len(glen) == 1 and [ast.unparse(a) for a in glen[0].args[1:]] == ['file.tell()', 'len(game_lump.data)']
-    ctx.check('C10.B5', ok, bsp, glen[0] if glen else sv, 'the game-lump directory must record (offset, uncompressed length): read() reads `uncomp_size` bytes for uncompressed lumps', func='BSP.save', text='game lump (offset, length)')
+    ctx.shape('C10.B5', ok, bsp, glen[0] if glen else sv, 'the game-lump directory must record (offset, uncompressed length): read() reads `uncomp_size` bytes for uncompressed lumps', func='BSP.save', text='game lump (offset, length)')
     # ---- B6 --------------------------------------------------------------------------------------------
     g_ = bsp.func('ParsedLump.__get__')
     src = ast.unparse(g_)
-    i_store = src.find('instance._parsed_lumps[self.lump] = result')
-    i_clear = src.find('for lump in self.to_clear')
-    ctx.check('C10.B6', 0 <= i_store < i_clear, bsp, g_, 'ParsedLump.__get__ must cache the parsed value before blanking the raw lumps (otherwise a second access re-parses empty data)', text='cache before blank')
+    stores = [n for n in ast.walk(g_) if isinstance(n, ast.Assign) and isinstance(n.targets[0], ast.Subscript) and dotted(n.targets[0].value) == 'instance._parsed_lumps']
+    blanks = [n for n in ast.walk(g_) if isinstance(n, ast.For) and dotted(n.iter) == 'self.to_clear']
+    if not blanks:
+        ctx.shape('C10.B6', False, bsp, g_, 'blanking loop over self.to_clear not found', text='cache before blank')
+    elif not stores:
+        ctx.check('C10.B6', False, bsp, blanks[0], 'ParsedLump.__get__ blanks the raw lumps but never stores the parsed value in _parsed_lumps: the next access re-parses empty data and save() has nothing to rebuild from',
+                  text='cache before blank')
+    else:
+        ctx.check('C10.B6', min(s_.lineno for s_ in stores) < blanks[0].lineno, bsp, blanks[0], 'ParsedLump.__get__ must cache the parsed value before blanking the raw lumps', text='cache before blank')
     init = bsp.func('ParsedLump.__init__')
     ok = 'self.to_clear = (lump, *extra)' in ast.unparse(init)
-    ctx.check('C10.B6', ok, bsp, init, 'to_clear must be exactly the lumps named in the view declaration (B1 is checked against that list)', text='to_clear = declaration')
+    ctx.shape('C10.B6', ok, bsp, init, 'to_clear must be exactly the lumps named in the view declaration (B1 is checked against that list)', text='to_clear = declaration')
 
 
 MUTANTS = [
